@@ -12,6 +12,8 @@
 (*                        invariants = laws of the statement on the        *)
 (*                        reference                                        *)
 (*   RevEpochTable        T->I: tabulates the reference over the domain    *)
+(*                        (run with RevEpoch_mc.cfg it does both in one    *)
+(*                        JVM: laws on, and table of, the same inputs)     *)
 (*   TraceRevEpoch        I->T: real observations beyond the bound         *)
 (***************************************************************************)
 EXTENDS Integers, Sequences, FiniteSets, TLC, IOUtils, Json
@@ -360,12 +362,12 @@ EpRows == [k \in 1..(HiOr(Len(EpDom)) - Lo + 1) |-> LET e == EpDom[Lo + k - 1] I
                doc |-> Flat(ParseStructured(e.r, e.w))]]
 CRRows == [i \in 1..Len(CRDom) |-> [j \in 1..Len(CRDom) |-> CanRead(CRDom[i], CRDom[j])]]
 
-Part == EnvStr("VERIF_PART", "all")
-Table == [part |-> Part, maxlen |-> MaxLen, listlen |-> ListLen, lo |-> Lo, hi |-> HiOr(Len(EpDom)), nepochs |-> Len(EpDom),
-          revs   |-> IF Part \in {"all", "rev"} THEN RevRows ELSE <<>>,
-          strs   |-> IF Part \in {"all", "rev"} THEN StrRows ELSE <<>>,
-          epochs |-> IF Part \in {"all", "epoch"} THEN EpRows ELSE <<>>,
-          crdom  |-> IF Part \in {"all", "canread"} THEN CRDom ELSE <<>>,
-          canread |-> IF Part \in {"all", "canread"} THEN CRRows ELSE <<>>]
+\* the table has the sections selected by VERIF_KINDS (epochs: the slice VERIF_LO..VERIF_HI)
+Table == [kinds |-> Kinds, maxlen |-> MaxLen, listlen |-> ListLen, lo |-> Lo, hi |-> HiOr(Len(EpDom)), nepochs |-> Len(EpDom),
+          revs   |-> IF HasKind("rev") THEN RevRows ELSE <<>>,
+          strs   |-> IF HasKind("str") THEN StrRows ELSE <<>>,
+          epochs |-> IF HasKind("ep") THEN EpRows ELSE <<>>,
+          crdom  |-> IF HasKind("cr") THEN CRDom ELSE <<>>,
+          canread |-> IF HasKind("cr") THEN CRRows ELSE <<>>]
 WriteTable == JsonSerialize(IOEnv.VERIF_OUT, Table)
 =============================================================================
